@@ -51,7 +51,7 @@ def machine(rep, work, vh, prelude, r, quick, cases):
         case = next(o for o in ops if o["id"] == v["id"])
         rep.violation("the real persistent stack diverges from PStack.tla at operation %d of %s" % (v["bad"], case["ops"][:v["bad"]]),
                       {"family": "pstack", "case": case, "actual": {"first_bad_op": v["bad"]}})
-    sample = r.sample(cases, min(len(cases), 400 if quick else 6000))
+    sample = r.sample(cases, min(len(cases), 400 if quick else 12000))
     vmcases = [{"id": i, "src": c["src"], "input": r.choice(c["inputs"])} for i, c in enumerate(sample)]
 
     def on_verdict(rec, v):
@@ -78,7 +78,7 @@ def run(tier, seed, replay):
         uni = jqgen.input_universe()
         quick = tier == "quick"
         # 1. TLC-enumerated programs
-        gen, res = evalfam.tlc_generate(work, "GenCore.tla", seed, {"VERIF_N2": "400" if quick else "6000"})
+        gen, res = evalfam.tlc_generate(work, "GenCore.tla", seed, {"VERIF_N2": "400" if quick else "20000"})
         rep.add_tlc(res)
         d1 = [g for g in gen if g["d"] == 1]
         d2 = [g for g in gen if g["d"] == 2]
@@ -94,17 +94,17 @@ def run(tier, seed, replay):
             cases.append({"src": g["src"], "inputs": r.sample(uni, nin)})
         rep.cov["exhaustive"] = not quick
         # 2. seeded random programs of the full core grammar
-        for _ in range(700 if quick else 12000):
+        for _ in range(700 if quick else 40000):
             cases.append({"src": jqgen.program(r, r.choice([2, 3, 3, 4])), "inputs": r.sample(uni, 2 if quick else 3)})
         # 2b. lexical scoping (definitions / variables / labels made inside one sub-query are invisible in its siblings) and join points
-        for _ in range(400 if quick else 8000):
+        for _ in range(400 if quick else 20000):
             cases.append({"src": jqgen.scope_program(r), "inputs": r.sample(uni, 1 if quick else 2)})
-        for _ in range(150 if quick else 3000):
+        for _ in range(150 if quick else 10000):
             cases.append({"src": jqgen.join_program(r), "inputs": r.sample(uni, 1 if quick else 2)})
-        for _ in range(200 if quick else 3000):
+        for _ in range(200 if quick else 8000):
             cases.append({"src": jqgen.rebind_program(r), "inputs": r.sample(uni, 1 if quick else 2)})
         spare = [jqgen.V(x) for x in ([1, 2, 3], [1, 2, 3, 4, 5], [[1], [2], [3]], {"a": [1, 2, 3]}, ["a", "b", "c", "d", "e", "f"], [1, 2, 3, 4, 5, 6, 7], [1], [])]
-        for _ in range(250 if quick else 4000):
+        for _ in range(250 if quick else 10000):
             cases.append({"src": jqgen.alias_program(r), "inputs": r.sample(spare, 2)})
         # 2c. the witnesses of repaired findings
         cases += [{"src": c["src"], "inputs": c["inputs"]} for c in evalfam.regression_cases()]
